@@ -140,7 +140,7 @@ var CfgC11 = reg(&MachineCfg{
 			opt.DidGenesis = g.genDidGenesis(app.MakeEncodingConfig().Codec, world.DIDKeys(), true)
 		}
 	},
-	Bias: map[string]int{"right-signers": 95, "exec": 2, "right-proof": 80, "did-mismatch": 30, "did-replay": 18, "did-retarget": 60, "update-to-empty": 10, "tombstone-proof": 35, "did-deactivate": 16, "did-segment": 12, "did-bare-doc": 14},
+	Bias: map[string]int{"right-signers": 95, "exec": 2, "right-proof": 80, "did-mismatch": 30, "did-replay": 18, "did-retarget": 60, "update-to-empty": 10, "tombstone-proof": 35, "did-deactivate": 16, "did-segment": 12, "did-bare-doc": 14, "foreign-controller": 18},
 	Rule: "DID machine in which the DID field, the document id and the signed payload are chosen independently (own, other user's, unregistered DIDs) and accepted messages are replayed under other DID fields; oracle = for every active entry under d the stored/read/exported document id is d; non-trivial = >=1 mismatching message carrying an otherwise valid proof",
 	NonTrivial: func(w *world.World) bool {
 		return lab(w, "did mismatching id refused")+w.Obs["c11 mismatching id accepted (open finding)"] > 0
@@ -235,7 +235,7 @@ var CfgC08 = reg(&MachineCfg{
 var CfgC15 = reg(&MachineCfg{
 	Prop: "C15", Also: agreement,
 	Gens: []interface{}{"aol", 32, "did", 20, "pnft", 24, "mixed", 10, "commit", 8, "burn", 4, "bank", 2, "gov", 2},
-	Bias: map[string]int{"right-signers": 85, "exec": 0, "multi": 35, "fee-payer": 50, "right-proof": 80, "tamper": 6, "group": 8, "tip": 10},
+	Bias: map[string]int{"right-signers": 85, "exec": 0, "multi": 35, "fee-payer": 50, "right-proof": 80, "tamper": 6, "group": 8, "tip": 10, "fee-granter": 12},
 	Rule: "transactions of 1-4 custom-module messages (any mix, succeeding or failing at any position), fees in {0, small, two denoms, more than the balance}, explicit fee payers, add-record with/without a named fee payer; oracle = per-DeliverTx balance/supply diff and all-or-nothing on the three custom stores; non-trivial = a multi-message tx that failed after the ante, or an add-record with a named fee payer",
 	NonTrivial: func(w *world.World) bool {
 		return lab(w, "c15 multi-message tx failed after ante")+lab(w, "c15 add-record with named fee payer") > 0
@@ -249,7 +249,14 @@ var CfgC15 = reg(&MachineCfg{
 })
 
 var CfgC07 = reg(&MachineCfg{
-	Prop:       "C07",
+	Prop: "C07",
+	Setup: func(g *G, opt *world.Options) {
+		// an operator may run the node with periodic invariant checks (x/crisis asserts every
+		// registered invariant at the start of EndBlock, i.e. BEFORE the burn)
+		if g.chance("inv-check-period", 45) {
+			opt.Node = map[string]interface{}{"inv-check-period": uint(pick(g, "period", []int{1, 1, 2, 3}))}
+		}
+	},
 	Gens:       []interface{}{"burn", 44, "gov", 14, "commit", 30, "bank", 8, "aol", 3, "pnft", 3, "crash", 2, "restart", 2},
 	Bias:       map[string]int{"right-signers": 95, "exec": 0, "vesting": 4},
 	Rule:       "block histories in which coins of 1-3 denominations reach the burn address by send, multi-send, several transfers per block, dust/huge amounts, by creating delayed/continuous/periodic/permanently locked vesting accounts at that address and by governance proposals that pay it out of the community pool inside EndBlock, with empty blocks and unrelated traffic; oracle = spendable/supply/balance accounting across EndBlock on the deliver state plus every crisis invariant after Commit; non-trivial = the burn address was spendable at >=2 EndBlocks",
